@@ -32,6 +32,20 @@
               These are the buffers the hook Manager.VerifSecretBuffers
               reports, plus the clear text held by accountInfo.lastExternalAddr
               / lastInternalAddr (objects that are NOT in the addrs map).
+      gone  - the buffers the manager has DROPPED from its own state, each
+              with "still holds its clear text": an address object evicted by
+              MarkUsed, the account key and the last-address objects of an
+              account dropped by InvalidateAccountCache, a last-address object
+              replaced by nextAddresses, the queued objects Unlock fills with
+              their private key and then forgets, a derived key pushed out of
+              the LRU, and whatever lock() itself drops (acctKeyPriv = nil,
+              privKeyCT = nil, privKeyCache.Delete) - live unless it was
+              zeroed first.  Nothing ever touches a [gone] entry again:
+              lock() cannot reach it.  The harness observes these buffers
+              through the references it retains (harness/cmd/c05/secrets.go).
+              An object that was only ever handed to a caller (the result of
+              DeriveFromKeyPath / ForEachAccountAddress on an unlocked
+              manager) is the caller's copy and appears nowhere.
 
     The behaviours of the code that the property depends on come from
     coq/Generated/LockFacts.v (regenerated from source) through [facts]; the
@@ -42,9 +56,10 @@
     ahead of disk after an aborted transaction is C08/C10's subject); no
     BIP32 child is invalid; ExtendAddresses (S3), NewScopedKeyManager and the
     imported pseudo-account as a derivation source are not among the
-    operations.  Address objects a caller keeps are not part of the state: the
-    accessors on them ([OpHeldPrivKey], [OpHeldScript]) take the object's
-    fields as input. *)
+    operations.  The accessors on address objects a caller keeps
+    ([OpHeldPrivKey], [OpHeldScript]) take the object's fields as input; what
+    becomes of the clear text in objects the manager DROPS is the subject of
+    [gone] above. *)
 From Verif Require Import Base.Prelude.
 Local Open Scope N_scope.
 
@@ -71,7 +86,31 @@ Record facts := {
   (* Unlock loads the account of every derive-on-unlock entry into the account
      cache before it decrypts the account keys (InvalidateAccountCache may have
      dropped it) *)
-  f_unlock_preloads : bool
+  f_unlock_preloads : bool;
+  (* --- lock() ZEROES what it drops / clears (not only `= nil` / Delete) --- *)
+  (* acctInfo.acctKeyPriv.Zero() before acctInfo.acctKeyPriv = nil *)
+  f_z_acct : bool;
+  (* managedAddress.lock(): zero.Bytes(a.privKeyCT) before a.privKeyCT = nil *)
+  f_z_key : bool;
+  (* baseScriptAddress.lock(): zero.Bytes(a.scriptClearText) before = nil *)
+  f_z_script : bool;
+  (* the purge of privKeyCache calls key.Zero() on every entry it deletes *)
+  f_z_cache : bool;
+  (* cryptoKeyScript.Zero(), cryptoKeyPriv.Zero(), masterKeyPriv.Zero(), zero.Bytea64(&hashedPrivPassphrase) *)
+  f_z_mgr : bool;
+  (* --- objects that leave the manager's state while it is unlocked are wiped --- *)
+  (* MarkUsed wipes the address object it deletes from the addrs cache *)
+  f_e_markused : bool;
+  (* InvalidateAccountCache wipes the account key and the last-address objects of the account it drops *)
+  f_e_invalidate : bool;
+  (* nextAddresses wipes the last-address object it replaces *)
+  f_e_next : bool;
+  (* Unlock does not leave the clear text in the queued (derive-on-unlock) objects it then forgets *)
+  f_e_unlock : bool;
+  (* DeriveFromKeyPathCache zeroes the key the LRU pushes out (the LRU has no eviction hook) *)
+  f_e_lru : bool;
+  (* capacity of privKeyCache (defaultPrivKeyCacheSize) *)
+  f_cache_cap : N
 }.
 
 (* The id of the empty passphrase.  Go: append(salt[:], passphrase...) returns
@@ -174,6 +213,11 @@ Inductive aobj :=
 | OKey (imported : bool) (has_enc : bool) (ct : bool)              (* managedAddress: privKeyEncrypted, privKeyCT *)
 | OScript (k : skind) (secret : bool) (ct : bool).                 (* script address: scriptClearText *)
 
+Definition aobj_live (o : aobj) : bool := match o with OKey _ _ ct => ct | OScript _ _ ct => ct end.
+Definition aobj_secret (o : aobj) : bool := match o with OKey _ _ _ => true | OScript _ sec _ => sec end.
+Definition aobj_secret_live (o : aobj) : bool := aobj_secret o && aobj_live o.
+Definition own_live (r : lastref) : bool := match r with LOwn ct => ct | LAlias _ => false end.
+
 Inductive qent :=
 | QAddr (sc : N) (k : akey)              (* an object that is (or was, with the same fate) addrs[k] *)
 | QLast (sc acct : N) (internal : bool)  (* the lastExternal/InternalAddr object of loadAccountInfo *)
@@ -201,10 +245,16 @@ Record mem := {
   m_queue : list qent                     (* deriveOnUnlock of all scoped managers *)
 }.
 
-Record state := { sd : disk; sm : mem; next_gen : N }.
+(* classes of dropped buffers: an address private key (privKeyCT), an account
+   private key (acctKeyPriv), a secret script, a cached derived key *)
+Inductive gclass := GKey | GAcct | GScript | GCache.
 
-Definition with_mem (s : state) (m : mem) : state := {| sd := sd s; sm := m; next_gen := next_gen s |}.
-Definition with_disk (s : state) (d : disk) : state := {| sd := d; sm := sm s; next_gen := next_gen s |}.
+Record state := { sd : disk; sm : mem; next_gen : N; gone : list (gclass * bool) }.
+
+Definition with_mem (s : state) (m : mem) : state := {| sd := sd s; sm := m; next_gen := next_gen s; gone := gone s |}.
+Definition with_disk (s : state) (d : disk) : state := {| sd := d; sm := sm s; next_gen := next_gen s; gone := gone s |}.
+Definition add_gone (s : state) (g : list (gclass * bool)) : state :=
+  {| sd := sd s; sm := sm s; next_gen := next_gen s; gone := gone s ++ g |}.
 Definition mem_keys (m : mem) (k : keys) : mem :=
   {| mk := k; m_accts := m_accts m; m_addrs := m_addrs m; m_cache := m_cache m; m_queue := m_queue m |}.
 Definition mem_accts (m : mem) a : mem :=
@@ -250,6 +300,7 @@ Inductive op :=
 | OpScript (sc : N) (a : akey)               (* Address(addr) then Script() *)
 | OpDerive (sc acct br idx : N)              (* DeriveFromKeyPath then PrivKey() on the result *)
 | OpDeriveCache (sc acct br idx : N)         (* DeriveFromKeyPathCache *)
+| OpCacheFill (sc acct br base : N) (n : nat) (* DeriveFromKeyPathCache on the n paths base, base+1, ... (stops at the first failure) *)
 | OpEncrypt (kt : ktype)
 | OpDecrypt (kt : ktype)                     (* of a valid ciphertext for that key type *)
 | OpConvert                                  (* ConvertToWatchingOnly *)
@@ -283,17 +334,51 @@ Definition lock_aobj (F : facts) (o : aobj) : aobj :=
   | OScript k sec ct => OScript k sec (if f_lock_wipes_wscripts F then false else ct)
   end.
 
-Definition lock_keys (k : keys) : keys :=
+(* the four buffers lock() zeroes IN PLACE (fact f_z_mgr) *)
+Definition lock_keys (F : facts) (k : keys) : keys :=
+  let z := f_z_mgr F in
   {| k_locked := true; k_watch := k_watch k; k_pub := k_pub k; k_priv := k_priv k;
      k_cpriv_enc := k_cpriv_enc k; k_cscript_enc := k_cscript_enc k;
-     k_master := false; k_cpriv := false; k_cscript := false; k_salt := k_salt k; k_hashed := None |}.
+     k_master := if z then false else k_master k; k_cpriv := if z then false else k_cpriv k;
+     k_cscript := if z then false else k_cscript k; k_salt := k_salt k;
+     k_hashed := if z then None else k_hashed k |}.
 
 Definition lock_mem (F : facts) (m : mem) : mem :=
-  {| mk := lock_keys (mk m);
+  {| mk := lock_keys F (mk m);
      m_accts := avmap (lock_ainfo F) (m_accts m);
      m_addrs := avmap (lock_aobj F) (m_addrs m);
      m_cache := if f_lock_purges_cache F then [] else m_cache m;
      m_queue := m_queue m |}.
+
+(* What lock() DROPS (the field is set to nil / the entry deleted): the buffer
+   is out of the manager's reach from then on and holds its clear text unless
+   it was zeroed first (the f_z facts). *)
+Definition own_residue (F : facts) (r : lastref) : list (gclass * bool) :=
+  match r with
+  | LOwn true => if f_lock_wipes_last F then [(GKey, negb (f_z_key F))] else []
+  | _ => []
+  end.
+
+Definition ainfo_residue (F : facts) (ai : ainfo) : list (gclass * bool) :=
+  (if ai_priv ai then [(GAcct, negb (f_z_acct F))] else [])
+  ++ own_residue F (ai_last_ext ai) ++ own_residue F (ai_last_int ai).
+
+Definition aobj_residue (F : facts) (o : aobj) : list (gclass * bool) :=
+  match o with
+  | OKey _ _ true => [(GKey, negb (f_z_key F))]
+  | OScript KP2SH sec true => [(GScript, sec && negb (f_z_script F))]
+  | OScript _ sec true => if f_lock_wipes_wscripts F then [(GScript, sec && negb (f_z_script F))] else []
+  | _ => []
+  end.
+
+Definition lock_residue (F : facts) (m : mem) : list (gclass * bool) :=
+  flat_map (fun kv => ainfo_residue F (snd kv)) (m_accts m)
+  ++ flat_map (fun kv => aobj_residue F (snd kv)) (m_addrs m)
+  ++ (if f_lock_purges_cache F then map (fun _ => (GCache, negb (f_z_cache F))) (m_cache m) else []).
+
+(* Manager.lock() run on memory [m] of state [s]: what it drops joins [gone] *)
+Definition lock_state (F : facts) (s : state) (m : mem) : state :=
+  {| sd := sd s; sm := lock_mem F m; next_gen := next_gen s; gone := gone s ++ lock_residue F m |}.
 
 (* --- loadAccountInfo --- *)
 Definition queue_if_public (F : facts) (has_enc private : bool) (q : list qent) : list qent :=
@@ -427,6 +512,17 @@ Fixpoint preload (F : facts) (qs : list qent) (s : state) : option state :=
     end
   end.
 
+(* A queued object that Unlock serves and then forgets (the queue is emptied):
+   nothing else in the manager refers to it.  It is handed its private key as
+   clear text (`a.privKeyCT = privKeyBytes`) unless fact f_e_unlock. *)
+Definition queue_gone (F : facts) (m : mem) (q : qent) : list (gclass * bool) :=
+  let g := [(GKey, negb (f_e_unlock F))] in
+  match q with
+  | QDetached _ _ => g
+  | QAddr sc a => match alookup addr_eqb (sc, a) (m_addrs m) with Some (OKey _ _ _) => [] | _ => g end
+  | QLast sc acct _ => match alookup pair_eqb (sc, acct) (m_accts m) with Some _ => [] | None => g end
+  end.
+
 Definition do_unlock (F : facts) (p : N) (s : state) : state * rc :=
   let m := sm s in
   let k := mk m in
@@ -436,25 +532,25 @@ Definition do_unlock (F : facts) (p : N) (s : state) : state * rc :=
     let m1 := mem_keys m (with_salt k (salt_after (k_salt k) p)) in
     match k_hashed k with
     | Some (hs, hp) => if (hs =? k_salt k) && (hp =? p) then (with_mem s m1, ROk)
-                       else (with_mem s (lock_mem F m1), RWrongPass)
-    | None => (with_mem s (lock_mem F m1), RWrongPass)
+                       else (lock_state F s m1, RWrongPass)
+    | None => (lock_state F s m1, RWrongPass)
     end
   else
     match k_priv k with
     | None => (s, RPanic)
     | Some (pw, g) =>
-      if negb (pw =? p) then (with_mem s (lock_mem F m), RWrongPass)     (* DeriveKey: ErrInvalidPassword *)
+      if negb (pw =? p) then (lock_state F s m, RWrongPass)     (* DeriveKey: ErrInvalidPassword *)
       else match k_cpriv_enc k with
-      | None => (with_mem s (lock_mem F m), RCrypto)
+      | None => (lock_state F s m, RCrypto)
       | Some g' =>
-        if negb (g' =? g) then (with_mem s (lock_mem F m), RCrypto)
+        if negb (g' =? g) then (lock_state F s m, RCrypto)
         else
           match (if f_unlock_preloads F then preload F (m_queue m) s else Some s) with
-          | None => (with_mem s (lock_mem F m), RNotFound)
+          | None => (lock_state F s m, RNotFound)
           | Some s0 =>
             let m := sm s0 in
             if negb (f_unlock_skips_keyless F) && existsb (fun kv => negb (ai_has_enc (snd kv))) (m_accts m)
-            then (with_mem s0 (lock_mem F m), RCrypto)                      (* Decrypt(nil acctKeyEncrypted) *)
+            then (lock_state F s0 m, RCrypto)                      (* Decrypt(nil acctKeyEncrypted) *)
             else
               let accts := avmap unlock_ainfo (m_accts m) in
               (* an entry whose account is not cached is loaded HERE, while the
@@ -463,7 +559,8 @@ Definition do_unlock (F : facts) (p : N) (s : state) : state * rc :=
               if negb (forallb (qent_derivable accts) (m_queue m)) then (s, RPanic)
               else
                 let m1 := fold_left apply_qent (m_queue m) (mem_accts m accts) in
-                (with_mem s0 (mem_keys (mem_queue m1 []) (unlocked_keys k p)), ROk)
+                (add_gone (with_mem s0 (mem_keys (mem_queue m1 []) (unlocked_keys k p)))
+                          (flat_map (queue_gone F m) (m_queue m)), ROk)
           end
       end
     end.
@@ -495,7 +592,7 @@ Definition do_change_priv (F : facts) (old new : N) (s : state) : state * rc :=
         let d := sd s in
         let dk' := {| d_watch := d_watch (dk d); d_pub := d_pub (dk d); d_cpub := d_cpub (dk d);
                       d_priv := Some (new, g'); d_cpriv := Some g'; d_cscript := Some g' |} in
-        ({| sd := disk_keys d dk'; sm := mem_keys m k'; next_gen := g' + 2 |}, ROk)
+        ({| sd := disk_keys d dk'; sm := mem_keys m k'; next_gen := g' + 2; gone := gone s |}, ROk)
     | _, _ => (s, RCrypto)
     end
   end.
@@ -514,7 +611,7 @@ Definition do_change_pub (old new : N) (s : state) : state * rc :=
     let d := sd s in
     let dk' := {| d_watch := d_watch (dk d); d_pub := (new, g'); d_cpub := g';
                   d_priv := d_priv (dk d); d_cpriv := d_cpriv (dk d); d_cscript := d_cscript (dk d) |} in
-    ({| sd := disk_keys d dk'; sm := mem_keys m k'; next_gen := g' + 1 |}, ROk).
+    ({| sd := disk_keys d dk'; sm := mem_keys m k'; next_gen := g' + 1; gone := gone s |}, ROk).
 
 (* --- Open (loadManager) --- *)
 Definition do_open (pubpass : N) (s : state) : state * rc :=
@@ -529,8 +626,9 @@ Definition do_open (pubpass : N) (s : state) : state * rc :=
                 k_master := false; k_cpriv := false; k_cscript := false;
                 k_salt := next_gen s;                        (* loadManager draws a fresh salt *)
                 k_hashed := None |} in
+    (* a NEW manager: what the closed one dropped is not part of it *)
     ({| sd := sd s; sm := {| mk := k; m_accts := []; m_addrs := []; m_cache := []; m_queue := [] |};
-        next_gen := next_gen s + 1 |}, ROk).
+        next_gen := next_gen s + 1; gone := [] |}, ROk).
 
 (* --- ConvertToWatchingOnly --- *)
 Definition convert_drow (r : drow) : drow :=
@@ -559,7 +657,8 @@ Definition do_convert (F : facts) (s : state) : state * rc :=
     let m' := {| mk := k'; m_accts := avmap convert_ainfo (m_accts m0);
                  m_addrs := avmap convert_aobj (m_addrs m0);
                  m_cache := m_cache m0; m_queue := m_queue m0 |} in
-    ({| sd := d'; sm := m'; next_gen := next_gen s |}, ROk).
+    ({| sd := d'; sm := m'; next_gen := next_gen s;
+        gone := gone s ++ (if locked s then [] else lock_residue F (sm s)) |}, ROk).
 
 (* --- accounts --- *)
 Definition last_acct (sc : N) (s : state) : N :=
@@ -595,6 +694,18 @@ Definition bump_row (internal : bool) (r : drow) : drow :=
   then {| dr_watch := dr_watch r; dr_has_priv := dr_has_priv r; dr_next_ext := dr_next_ext r; dr_next_int := dr_next_int r + 1 |}
   else {| dr_watch := dr_watch r; dr_has_priv := dr_has_priv r; dr_next_ext := dr_next_ext r + 1; dr_next_int := dr_next_int r |}.
 
+(* a last-address object that leaves the manager's state *)
+Definition last_gone (wipe : bool) (r : lastref) : list (gclass * bool) :=
+  match r with LOwn ct => [(GKey, ct && negb wipe)] | LAlias _ => [] end.
+
+Definition bool_eq (a b : bool) : bool := if a then b else negb b.
+
+Definition orphan_last (sc acct : N) (internal : bool) (q : qent) : qent :=
+  match q with
+  | QLast sc' acct' i' => if (sc' =? sc) && (acct' =? acct) && bool_eq i' internal then QDetached sc acct else q
+  | _ => q
+  end.
+
 Definition do_next_addr (F : facts) (sc acct : N) (internal : bool) (s : state) : state * rc :=
   match load_acct F sc acct s with
   | None => (s, RNotFound)
@@ -619,12 +730,17 @@ Definition do_next_addr (F : facts) (sc acct : N) (internal : bool) (s : state) 
         (* onCommit *)
         let q2 := if k_locked k && negb wo then [QAddr sc a] else [] in
         let m := sm s1 in
+        (* onCommit replaces acctInfo.last{External,Internal}Addr: the object it
+           held so far leaves the manager's state (unless it is also in addrs) -
+           with its clear text, unless fact f_e_next; a queue entry that refers
+           to it now refers to an object nothing else tracks *)
+        let old := if internal then ai_last_int ai else ai_last_ext ai in
         let m' := {| mk := mk m;
                      m_accts := aupsert pair_eqb (sc, acct) (set_last internal (LAlias a) ai) (m_accts m);
                      m_addrs := aupsert addr_eqb (sc, a) (OKey false private private) (m_addrs m);
                      m_cache := m_cache m;
-                     m_queue := m_queue m ++ q1 ++ q2 |} in
-        ({| sd := d'; sm := m'; next_gen := next_gen s1 |}, ROk)
+                     m_queue := map (orphan_last sc acct internal) (m_queue m) ++ q1 ++ q2 |} in
+        ({| sd := d'; sm := m'; next_gen := next_gen s1; gone := gone s1 ++ last_gone (f_e_next F) old |}, ROk)
     end
   end.
 
@@ -720,20 +836,83 @@ Definition do_held_priv_key (F : facts) (enc ct : bool) (s : state) : state * rc
 Definition do_held_script (k : skind) (sec ct : bool) (s : state) : state * rc :=
   (s, script_access (mk (sm s)) k sec).
 
+(* the derived-key cache is one LRU per scoped manager; [m_cache] lists the
+   entries of all scopes, least recently used first *)
+Definition in_scope (sc : N) (p : N * N * N * N) : bool := let '(s1, _, _, _) := p in s1 =? sc.
+Definition scope_cache (sc : N) (c : list (N * N * N * N)) : list (N * N * N * N) := filter (in_scope sc) c.
+Fixpoint drop_oldest (sc : N) (c : list (N * N * N * N)) : list (N * N * N * N) :=
+  match c with
+  | [] => []
+  | p :: c' => if in_scope sc p then c' else p :: drop_oldest sc c'
+  end.
+
 Definition do_derive_cache (F : facts) (sc acct br idx : N) (s : state) : state * rc :=
   let m := sm s in
   let k := mk m in
   if f_cache_checked F && k_watch k then (s, RWatchOnly)
   else if f_cache_checked F && k_locked k then (s, RLocked)
-  else if existsb (path_eqb (sc, acct, br, idx)) (m_cache m) then (s, ROk)
+  else if existsb (path_eqb (sc, acct, br, idx)) (m_cache m)
+  then (* Get: the entry becomes the most recently used one *)
+       (with_mem s (mem_cache m (filter (fun p => negb (path_eqb (sc, acct, br, idx) p)) (m_cache m)
+                                 ++ [(sc, acct, br, idx)])), ROk)
   else match alookup pair_eqb (sc, acct) (m_accts m) with
   | None => (s, RNotCached)
   | Some ai =>
     (* private := !IsLocked() && !watchOnly && acctInfo.acctKeyPriv != nil *)
     let private := negb (k_locked k) && negb (k_watch k) && ai_priv ai in
-    if private then (with_mem s (mem_cache m (m_cache m ++ [(sc, acct, br, idx)])), ROk)
+    if private then
+      (* Put: when the cache is full the least recently used key is pushed
+         out - nothing zeroes it (the LRU has no eviction hook; fact f_e_lru) *)
+      let full := f_cache_cap F <=? N.of_nat (length (scope_cache sc (m_cache m))) in
+      let c := if full then drop_oldest sc (m_cache m) else m_cache m in
+      let g := if full then [(GCache, negb (f_e_lru F))] else [] in
+      (add_gone (with_mem s (mem_cache m (c ++ [(sc, acct, br, idx)]))) g, ROk)
     else (s, ROther)                     (* ECPrivKey on a public key: ErrNotPrivExtKey *)
   end.
+
+Fixpoint cache_fill_loop (F : facts) (sc acct br base : N) (n : nat) (s : state) : state * rc :=
+  match n with
+  | O => (s, ROk)
+  | S n' =>
+    let '(s1, r) := do_derive_cache F sc acct br base s in
+    match r with
+    | ROk => cache_fill_loop F sc acct br (base + 1) n' s1
+    | _ => (s1, r)
+    end
+  end.
+
+(* n calls of DeriveFromKeyPathCache on consecutive paths.  When every call
+   is bound to derive and insert (manager unlocked, account cached with its
+   private key, none of the paths cached yet) the loop is evaluated in one pass
+   - the n paths are appended and as many of the scope's oldest entries pushed
+   out as exceed the capacity - instead of n passes over a cache of thousands of
+   entries (Properties/C05.v, C05_cache_fill_one_pass_agrees, compares the two
+   on an instance). *)
+Fixpoint drop_oldest_n (k : nat) (sc : N) (c : list (N * N * N * N)) : list (N * N * N * N) :=
+  match k, c with
+  | O, _ => c
+  | _, [] => []
+  | S k', p :: c' => if in_scope sc p then drop_oldest_n k' sc c' else p :: drop_oldest_n k sc c'
+  end.
+
+Definition in_range (sc acct br base : N) (n : nat) (p : N * N * N * N) : bool :=
+  let '(s1, a1, b1, i1) := p in
+  (s1 =? sc) && (a1 =? acct) && (b1 =? br) && (base <=? i1) && (i1 <? base + N.of_nat n).
+
+Definition cache_fill (F : facts) (sc acct br base : N) (n : nat) (s : state) : state * rc :=
+  let m := sm s in
+  let k := mk m in
+  let derivable := match alookup pair_eqb (sc, acct) (m_accts m) with
+                   | Some ai => negb (k_locked k) && negb (k_watch k) && ai_priv ai
+                   | None => false
+                   end in
+  if derivable && negb (existsb (in_range sc acct br base n) (m_cache m)) then
+    let fresh := map (fun i => (sc, acct, br, base + N.of_nat i)) (seq 0 n) in
+    let have := length (scope_cache sc (m_cache m)) in
+    let over := (have + n - N.to_nat (f_cache_cap F))%nat in
+    (add_gone (with_mem s (mem_cache m (drop_oldest_n over sc (m_cache m ++ fresh))))
+              (repeat (GCache, negb (f_e_lru F)) over), ROk)
+  else cache_fill_loop F sc acct br base n s.
 
 Definition do_crypt (kt : ktype) (s : state) : state * rc :=
   match kt with
@@ -780,18 +959,30 @@ Definition requeue (accts : list ((N * N) * ainfo)) (sc : N) (a : akey) (q : qen
   | _ => q
   end.
 
-Definition do_mark_used (sc : N) (a : akey) (s : state) : state * rc :=
+(* the object is also some account's last address: it stays in the manager's state *)
+Definition aliased (sc : N) (a : akey) (accts : list ((N * N) * ainfo)) : bool :=
+  existsb (fun kv => (fst (fst kv) =? sc)
+                     && (is_alias a (ai_last_ext (snd kv)) || is_alias a (ai_last_int (snd kv)))) accts.
+
+Definition gclass_of (o : aobj) : gclass := match o with OKey _ _ _ => GKey | OScript _ _ _ => GScript end.
+
+Definition do_mark_used (F : facts) (sc : N) (a : akey) (s : state) : state * rc :=
   let m := sm s in
   match alookup addr_eqb (sc, a) (m_addrs m) with
   | None => (s, ROk)
   | Some o =>
+    let wipe := f_e_markused F in
     (* only a *managedAddress can be an account's last address *)
-    let ct := match o with OKey _ _ ct => ct | OScript _ _ _ => false end in
-    (with_mem s {| mk := mk m;
+    let ct := match o with OKey _ _ ct => ct && negb wipe | OScript _ _ _ => false end in
+    (* the object leaves the addrs map with whatever clear text it holds (fact
+       f_e_markused: wiped first); lock() reaches it afterwards only as an
+       account's last address *)
+    let g := if aliased sc a (m_accts m) then [] else [(gclass_of o, aobj_secret_live o && negb wipe)] in
+    (add_gone (with_mem s {| mk := mk m;
                    m_accts := map (unalias sc a ct) (m_accts m);
                    m_addrs := filter (fun kv => negb (addr_eqb (fst kv) (sc, a))) (m_addrs m);
                    m_cache := m_cache m;
-                   m_queue := map (requeue (m_accts m) sc a) (m_queue m) |}, ROk)
+                   m_queue := map (requeue (m_accts m) sc a) (m_queue m) |}) g, ROk)
   end.
 
 (* --- ForEachAccountAddress: rowInterfaceToManaged for every address row --- *)
@@ -823,15 +1014,23 @@ Definition orphan (sc acct : N) (q : qent) : qent :=
   | _ => q
   end.
 
-Definition do_invalidate (sc acct : N) (s : state) : state * rc :=
+Definition do_invalidate (F : facts) (sc acct : N) (s : state) : state * rc :=
   let m := sm s in
-  (with_mem s (mem_queue (mem_accts m (filter (fun kv => negb (pair_eqb (fst kv) (sc, acct))) (m_accts m)))
-                         (map (orphan sc acct) (m_queue m))), ROk).
+  (* the accountInfo leaves the manager's state: its private account key and
+     the last-address objects only it refers to go with it (fact
+     f_e_invalidate: wiped first) *)
+  let w := f_e_invalidate F in
+  let g := match alookup pair_eqb (sc, acct) (m_accts m) with
+           | Some ai => (GAcct, ai_priv ai && negb w) :: last_gone w (ai_last_ext ai) ++ last_gone w (ai_last_int ai)
+           | None => []
+           end in
+  (add_gone (with_mem s (mem_queue (mem_accts m (filter (fun kv => negb (pair_eqb (fst kv) (sc, acct))) (m_accts m)))
+                         (map (orphan sc acct) (m_queue m)))) g, ROk).
 
 Definition do_lock (F : facts) (s : state) : state * rc :=
   if watch s then (s, RWatchOnly)
   else if locked s then (s, RLocked)
-  else (with_mem s (lock_mem F (sm s)), ROk).
+  else (lock_state F s (sm s), ROk).
 
 Definition step (F : facts) (s : state) (o : op) : state * rc :=
   match o with
@@ -851,12 +1050,13 @@ Definition step (F : facts) (s : state) (o : op) : state * rc :=
   | OpScript sc a => do_script F sc a s
   | OpDerive sc acct br idx => do_derive F sc acct br idx s
   | OpDeriveCache sc acct br idx => do_derive_cache F sc acct br idx s
+  | OpCacheFill sc acct br base n => cache_fill F sc acct br base n s
   | OpEncrypt kt => do_crypt kt s
   | OpDecrypt kt => do_crypt kt s
   | OpConvert => do_convert F s
-  | OpMarkUsed sc a => do_mark_used sc a s
+  | OpMarkUsed sc a => do_mark_used F sc a s
   | OpForEach sc acct => do_foreach F sc acct s
-  | OpInvalidate sc acct => do_invalidate sc acct s
+  | OpInvalidate sc acct => do_invalidate F sc acct s
   | OpHeldPrivKey enc ct => do_held_priv_key F enc ct s
   | OpHeldScript k sec ct => do_held_script k sec ct s
   end.
@@ -888,7 +1088,7 @@ Definition init (nsc : nat) (pubpass privpass : N) : state :=
                        k_master := false; k_cpriv := false; k_cscript := false;
                        k_salt := 2; k_hashed := None |};
               m_accts := []; m_addrs := []; m_cache := []; m_queue := [] |};
-     next_gen := 3 |}.
+     next_gen := 3; gone := [] |}.
 
 (* ------------------------------------------------------------------ clear-text slots *)
 
@@ -898,10 +1098,6 @@ Definition last_live (addrs : list ((N * akey) * aobj)) (sc : N) (r : lastref) :
   | LAlias k => match alookup addr_eqb (sc, k) addrs with Some (OKey _ _ ct) => ct | _ => false end
   end.
 
-Definition aobj_live (o : aobj) : bool := match o with OKey _ _ ct => ct | OScript _ _ ct => ct end.
-Definition aobj_secret (o : aobj) : bool := match o with OKey _ _ _ => true | OScript _ sec _ => sec end.
-Definition aobj_secret_live (o : aobj) : bool := aobj_secret o && aobj_live o.
-Definition own_live (r : lastref) : bool := match r with LOwn ct => ct | LAlias _ => false end.
 
 (* no secret clear text anywhere in memory *)
 Definition wiped (m : mem) : bool :=
@@ -911,3 +1107,20 @@ Definition wiped (m : mem) : bool :=
                         && negb (own_live (ai_last_int (snd kv)))) (m_accts m)
   && forallb (fun kv => negb (aobj_secret_live (snd kv))) (m_addrs m)
   && match m_cache m with [] => true | _ => false end.
+
+(* the buffers the manager has dropped hold no clear text either *)
+Definition gone_dead (s : state) : bool := forallb (fun e => negb (snd e)) (gone s).
+
+(* ... all of them but the derived keys the third-party LRU pushes out *)
+Definition gone_dead_but_lru (s : state) : bool :=
+  forallb (fun e => negb (snd e) || match fst e with GCache => true | _ => false end) (gone s).
+
+(* the memory clause of the property: no in-memory clear-text copy, reachable
+   from the manager or not *)
+Definition wiped_all (s : state) : bool := wiped (sm s) && gone_dead s.
+
+Definition gone_live_count (c : gclass) (s : state) : nat :=
+  length (filter (fun e => snd e && match fst e, c with
+                                    | GKey, GKey | GAcct, GAcct | GScript, GScript | GCache, GCache => true
+                                    | _, _ => false
+                                    end) (gone s)).
